@@ -68,9 +68,9 @@ Proof. exact C48_override_char_proof. Qed.
 Print Assumptions C48_override_domain.
 
 (* for_each_n: the plan has numThreads <= max(1,maxThreads) chunks in total, so any set of simultaneously running
-   applications is at most that large (n, N >= 0; the zero-thread/no-wait corner has no plan, see C15) *)
-Theorem C48_foreach : forall c p, 0 <= fe_n c -> 0 <= fe_N c -> fe_plan c = Some p ->
-  forall l, NoDup l -> incl l p -> Z.of_nat (length l) <= Z.max 1 (wrap_s 32 (fe_maxThreads c)).
+   applications is at most that large (every n, pool size and wait mode) *)
+Theorem C48_foreach : forall c l, NoDup l -> incl l (fe_plan c) ->
+  Z.of_nat (length l) <= Z.max 1 (wrap_s 32 (fe_maxThreads c)).
 Proof. exact C48_foreach_proof. Qed.
 Print Assumptions C48_foreach.
 
